@@ -20,7 +20,7 @@ var classDesc = map[string]string{
 	"math":            "Open drops m:oMath/m:oMathPara of a formula paragraph (AddMathFormula): an empty paragraph remains",
 	"anchor":          "Open drops the positioning/wrap children of wp:anchor (simplePos, positionH, positionV, effectExtent, wrapTight, wrapTopAndBottom, cNvGraphicFramePr) of floating pictures",
 	"picLocks":        "Open drops a:picLocks of pic:cNvPicPr of every picture",
-	"titlePg":         "Open drops w:titlePg of the section (SetDifferentFirstPage / first-page header or footer)",
+	"titlePg":         "Open drops w:titlePg of the section (SetDifferentFirstPage(true))",
 	"pgNumType":       "Open drops w:pgNumType of the section (created by the header/footer calls)",
 }
 
